@@ -115,6 +115,7 @@ def verdict_under_every_reporter(ctx, bench, scens, label, what):
 
 def check_C01(ctx):
     runner_lean(ctx)
+    reader_obligations(ctx)
     traversal_obligations(ctx, ["every_test_skeleton", "every_test_sub_suites", "every_test_own_tests", "named_test_skeleton"])
     import verdict as vd
     generated_obligations(ctx, vd.render, "Cgreen.Gen.Verdict", ["suite_verdict", "single_verdict"], "the verdict expressions of run_test_suite() and run_single_test()", sites=["verdict"])
@@ -127,6 +128,13 @@ def check_C01(ctx):
             s.mode = mode; scens.append(s)
         for _ in range(n // 2):
             scens.append(Scen(gen_tree(rng), mode=mode))
+    # a green test that makes exactly as many checks as leave room for its completion notice, and one fewer: the run is green
+    for mode in ("fork", "inproc"):
+        for k in (4095, 4094):
+            scens.append(Scen(S("top", items=[S("inner", items=[T("full", body=["P"] * k)]), T("b", body=["P"])]), mode=mode))
+    # a single test run by name that leaves through exit(0) (code under test that calls exit): never a successful run
+    for nm, body in (("t", ["P", "E"]), ("t", ["E"]), ("t", ["F", "E"])):
+        scens.append(Scen(S("top", items=[T("a", body=["P"]), S("inner", items=[T(nm, body=body)])]), mode="single:" + nm))
     # a test that announces skip_test() and then ends abnormally, everything else green (finding F02 in this property's terms: the run succeeds)
     scens.append(Scen(S("top", items=[T("a", body=["P"]), T("v", body=["P", "S", "K11"]), T("b", body=["P"])]), mode="fork"))
     scens.append(Scen(S("top", items=[S("inner", items=[T("v", body=["S", "E"])]), T("b", body=["P"])]), mode="fork"))
